@@ -281,6 +281,9 @@ def body(col: Collector, case):
     except Unset as u:
         col.exclude(f"term-not-computable:{u}")
         return
+    except gen.InitRejected as e:
+        col.exclude(str(e))
+        return
     except AssertionError as e:
         col.fail("step", "assertion:" + exc_bucket(e), case, observed=repr(e), expected="no assertion")
         col.case(classes=classes)
